@@ -101,6 +101,15 @@ pub mod sys {
             real_nix::sys::socket::getsockopt(fd, opt)
         }
 
+        /// SO_REUSEADDR on a simulated datagram socket is remembered: on Linux it also changes which ports the
+        /// automatic choice (bind to port 0) may hand out.
+        pub fn setsockopt<O: SetSockOpt + 'static>(fd: RawFd, opt: O, val: &O::Val) -> Result<()> {
+            if std::any::TypeId::of::<O>() == std::any::TypeId::of::<sockopt::ReuseAddr>() && tokio::net::raw_intent_known(fd) {
+                tokio::net::raw_intent_set(fd, |i| i.reuse = true);
+            }
+            real_nix::sys::socket::setsockopt(fd, opt, val)
+        }
+
         pub fn bind(fd: RawFd, addr: &dyn SockaddrLike) -> Result<()> {
             let mut known = false;
             if let Some(a) = to_std(addr) {
